@@ -320,12 +320,21 @@ Proof.
   intros m a I. unfold time_value. destruct a; try (first [exact I | constructor]). destruct (parse_datetime s); first [exact I | constructor].
 Qed.
 
+Lemma keep_literal_InvU : forall c m lex dt lang, InvU m -> out_InvU (keep_literal c m lex dt lang).
+Proof.
+  intros c m lex dt lang HI. unfold keep_literal.
+  destruct (mk_literal lex dt lang) as [s|z|r iv g|b|t|u|q|l d g]; try exact HI.
+  destruct d as [d|]; [|exact HI].
+  pose proof (resolve_o_InvU c m (NQn d) HI) as R.
+  destruct (resolve_o c m (NQn d)) as [m' [q|]|m' e|]; exact R.
+Qed.
+
 Lemma auto_conv_InvU : forall c m a, InvU m -> out_InvU (auto_conv c m a).
 Proof.
-  intros c m a I. unfold auto_conv.
-  destruct a as [s|z|r iv g|b|t|u|q|lex dt lang|[q|]|]; try (first [exact I | constructor]); try (apply via_InvU; exact I).
-  destruct lang; [exact I|]. destruct dt as [d|]; [|exact I].
-  destruct (parse_xsd (cft c) lex d); first [exact I | constructor].
+  intros c m a HI. unfold auto_conv.
+  destruct a as [s|z|r iv g|b|t|u|q|lex dt lang|[q|]|]; try exact HI; try (apply via_InvU; exact HI).
+  destruct lang; [apply keep_literal_InvU; exact HI|]. destruct dt as [d|]; [|exact HI].
+    destruct (parse_xsd (cft c) lex d); first [exact HI | constructor | apply keep_literal_InvU; exact HI].
 Qed.
 
 Lemma add_attrs_loop_InvU : forall c ic l m d,
